@@ -684,6 +684,30 @@ pub fn drive_automata(a: &Args) {
             }
         }
     }
+    // deep automata: a chain of 300 states on the first letter plus one extra state that enters the chain at two
+    // different depths - hundreds of refinement rounds, blocks that are split again long after they were formed
+    // (only the language is judged for these: the Nerode fixpoints are quadratic)
+    if want_min {
+        let l = 300usize;
+        let kdeep = 280usize;
+        let step = a.sz(1, 1);
+        for m in (1..kdeep).filter(|m| m % step == (a.seed as usize) % step) {
+            // states: 0..=l chain, l+1 dead, l+2 extra
+            let (dead, x) = (l + 1, l + 2);
+            let lay = Layout::new(1, &mut rng, true);
+            let letters: Vec<(u32, u32)> = (0..2).map(|i| (lay.lo(i), lay.hi(i))).collect();
+            let mut delta: Vec<Vec<usize>> = (0..=l).map(|i| vec![if i < l { i + 1 } else { dead }, dead]).collect();
+            delta[0][1] = x;
+            delta.push(vec![dead, dead]);
+            delta.push(vec![kdeep, m]);
+            let mut finals = vec![false; l + 3];
+            finals[l] = true;
+            let d = AbsDfa { n: l + 3, letters, delta, finals };
+            let mut unused = Out::create(&a.out, "dfa_deep_unused.ndjson");
+            dfa_records(&d, 0, &mut Rng::new(4), true, false, &mut o1, &mut unused);
+            unused.finish();
+        }
+    }
     for k in 0..a.sz(1800, 40000) {
         let d = match k % 6 {
             0 => random_abs(&mut rng, 4, 2),
